@@ -51,6 +51,8 @@ pub fn profile(name: &str) -> Profile {
         "cachepair" => Profile { name: "cachepair", tight: true, validators: true, costers: true, lifecycle: true, ..base },
         // lifecycle-heavy schedules: inserts racing wait / clear / close from three clients (C08, C10, C11, C12)
         "cachel" => Profile { name: "cachel", quiescent: false, nclients: 3, lifecycle: true, tight: true, small_buf: true, flavour: 2, steps: (25, 70), ..base },
+        // races around the expiry sweep: a client writes the very key the sweeper is about to examine (C03 C04 C05)
+        "cacher" => Profile { name: "cacher", quiescent: false, nclients: 2, flavour: 2, steps: (10, 28), ..base },
         "cachesa" => Profile { name: "cachesa", flavour: 1, quiescent: false, nclients: 3, lifecycle: true, tight: true, small_buf: true, steps: (30, 90), ..base },
         _ => panic!("unknown cache profile {}", name),
     }
@@ -175,6 +177,51 @@ impl Gen {
             _ => if lifecycle && rng.chance(1, 3) { Op::Close } else { Op::Len },
         }
     }
+}
+
+/// A directed schedule: an entry's TTL elapses, the ticker fires, the processor takes the due buckets
+/// and stops in front of the first due key; meanwhile a client re-inserts that key (without TTL, or
+/// with a new one), writes through get_mut or removes it; then everybody runs on in random order.
+fn sweep_race(case: &mut Case, g: &mut Gen, rng: &mut Rng, t: &mut Trace, p: &Profile) {
+    case.settle(t, rng);
+    if case.hung || case.cstate.iter().any(|c| *c != CState::Idle) {
+        return;
+    }
+    let (idx, conf) = g.key(rng, p);
+    g.next_val += 1;
+    let ttl = *rng.pick(&[1u64, 500_000_000, 1_000_000_000, 1_500_000_000]);
+    case.start_op(t, 0, Op::Insert { idx, conf, val: g.next_val, cost: 1, ttl_ns: ttl, only: false });
+    case.settle(t, rng);
+    case.advance(t, *rng.pick(&[1_700_000_000u64, 2_500_000_000, 61_000_000_000]));
+    case.tick(t);
+    for _ in 0..6 {
+        if case.hung || !case.proc_enabled() || case.proc_at() == "proc:tick:key" {
+            break;
+        }
+        case.step_actor(t, PROC);
+    }
+    if case.hung || case.cstate[1] != CState::Idle {
+        return;
+    }
+    g.next_val += 1;
+    let op = match rng.below(5) {
+        // (insert_if_present has no TTL variant)
+        0 | 1 => Op::Insert { idx, conf, val: g.next_val, cost: 1, ttl_ns: 0, only: rng.chance(1, 3) },
+        2 => Op::Insert { idx, conf, val: g.next_val, cost: 1, ttl_ns: 3_600_000_000_000, only: false },
+        3 => Op::GetMutWrite { idx, conf, val: g.next_val },
+        _ => Op::Remove { idx, conf },
+    };
+    case.start_op(t, 1, op);
+    if rng.chance(2, 3) {
+        // the client finishes before the sweeper looks at the key
+        for _ in 0..8 {
+            if case.hung || !matches!(case.cstate[1], CState::At(_)) || !case.enabled().contains(&1) {
+                break;
+            }
+            case.step_actor(t, 1);
+        }
+    }
+    case.settle(t, rng);
 }
 
 enum Act { Op(Op), Advance(u64), Tick }
@@ -305,6 +352,10 @@ pub fn suite_cache(rng: &mut Rng, cases: u64, t: &mut Trace, pname: &str) {
                     case.settle(t, rng);
                 }
             } else {
+                if p.name == "cacher" && r >= 90 {
+                    sweep_race(&mut case, &mut g, rng, t, &p);
+                    continue;
+                }
                 let idle: Vec<usize> = (0..p.nclients).filter(|a| case.cstate[*a] == CState::Idle).collect();
                 let en = case.enabled();
                 if r < 38 && !idle.is_empty() {
